@@ -32,15 +32,13 @@ Definition Inv_loc (s : state) : Prop := loc_ok (uidcol s) (loc s).
 Definition Inv (s : state) : Prop := Inv_shape s /\ Inv_uid s /\ Inv_names s /\ Inv_loc s.
 
 (* ------------------------------------------------------------------ guards *)
-Definition live (s : state) (u : nat) : bool :=
-  match col_of_uid s u with Some _ => true | None => false end.
-(* reason codes: 0 accepted; 1 locator index beyond the current count; 2 uid of a deleted column;
-   3 setLocatorsByColIdx with icols <> (0,1,2,..); 4 setNameByColIdx to a name already present *)
+(* reason codes: 0 accepted; 1 locator index beyond the current count (the only guard left: the library pads the
+   role list with uid 0, finding setLocatorByUID:index-beyond-count) *)
 Definition ok_loc1 (u : Z) (t : loctype) (k : nat) (s : state) : Z :=
   match zidx u (uidmax s) with
   | None => 0%Z
   | Some u' =>
-      if negb (live s u') then 2%Z
+      if negb (live s u') then 0%Z       (* deleted column: the call does nothing *)
       else match t with
            | None => 0%Z
            | Some t' => if k <=? length (erase1 u' (loc s t')) then 0%Z else 1%Z
@@ -62,44 +60,32 @@ Definition add_ok (t : loctype) (k : Z) (s : state) : Z :=
   | None => 0%Z
   | Some t' => if (k <? 0)%Z || (Z.to_nat k <=? length (loc s t')) then 0%Z else 1%Z
   end.
-Definition zlist_eqb (a b : list Z) : bool :=
-  (length a =? length b) && forallb (fun p => (fst p =? snd p)%Z) (combine a b).
-
 Definition why_not (s : state) (o : op) : Z :=
   match o with
   | AddCols nadd _ _ t k _ => if (nadd <=? 0)%Z then 0%Z else add_ok t k s
   | AddColsTab tab _ t k => match tab with [] => 0%Z | _ => add_ok t k s end
-  | SetLocUID u t k cl => match zidx u (uidmax s) with None => 0%Z | Some _ => ok_locs [u] t k cl s end
+  | SetLocUID u t k cl =>
+      match zidx u (uidmax s) with
+      | None => 0%Z
+      | Some u' => if live s u' then ok_locs [u] t k cl s else 0%Z
+      end
   | SetLocCol c t k cl =>
       match zidx c (ncol s) with
       | None => 0%Z
       | Some c' => let u := oz (uid_of_col s c') in
-                   match zidx u (uidmax s) with None => 0%Z | Some _ => ok_locs [u] t k cl s end
+                   match zidx u (uidmax s) with
+                   | None => 0%Z
+                   | Some u' => if live s u' then ok_locs [u] t k cl s else 0%Z
+                   end
       end
   | SetLocName p t k cl => ok_locs_ids (ids_name s p false) t k cl s
   | SetLocsUID us t k cl => ok_locs us t k cl s
   | SetLocsRange n u t k cl => ok_locs (zrange u n) t k cl s
-  | SetLocsCol cs t k cl =>
-      let r := ok_locs (set_locs_col_uids cs s) t k cl s in
-      if negb (r =? 0)%Z then r
-      else if zlist_eqb cs (map Z.of_nat (seq 0 (length cs))) then 0%Z else 3%Z
+  | SetLocsCol cs t k cl => ok_locs (set_locs_col_uids cs s) t k cl s
   | SetLocsNames ps t k cl => ok_locs_ids (ids_names s ps) t k cl s
-  | SetNameCol c n =>
-      match zidx c (ncol s) with
-      | Some c' => if mem_name n (remove_nth c' (names s)) then 4%Z else 0%Z
-      | None => 0%Z
-      end
   | _ => 0%Z
   end.
 Definition accepted (s : state) (o : op) : Prop := why_not s o = 0%Z.
-
-(* hypotheses of the two observation-level statements that do not follow from Inv (findings) *)
-(* a stored name used as a pattern matches no other stored name ('.' of a repaired name is a wildcard) *)
-Definition names_unambiguous (s : state) : Prop :=
-  forall n m, In n (names s) -> In m (names s) -> rmatch m n = true -> m = n.
-(* the selection column, if any, holds no undefined value *)
-Definition sel_defined (s : state) : Prop :=
-  forall e, e < nech s -> loc s SEL <> [] -> sel_value s e <> None.
 
 (* ------------------------------------------------------------------ the invariant on observations *)
 Definition val_eqb (a b : val) : bool :=
@@ -127,40 +113,46 @@ Definition count_true (l : list bool) : nat := length (filter (fun b => b) l).
    agrees; 16 every role (type, rank) is held by exactly one existing column and no column has two roles;
    32 getLocatorNumber = number of columns of that type; 64 reported active count = number of active samples;
    128 the same column is returned through every designator *)
-Definition check_obs (o : obs) : Z :=
+Definition colloc_at (o : obs) (c : nat) : Z * Z := nth c (o_colloc o) ((-2)%Z, (-2)%Z).
+Definition chk_names (o : obs) : bool := nodup_names (o_names o).
+Definition chk_sizes (o : obs) : bool :=
   let nc := o_ncol o in
-  let cs := seq 0 nc in
-  let colloc c := nth c (o_colloc o) ((-2)%Z, (-2)%Z) in
-  let b1 := nodup_names (o_names o) in
-  let b2 := (length (o_names o) =? nc) && (length (o_alluids o) =? nc) && (length (o_cols o) =? nc)
-            && (length (o_col2uid o) =? nc) && (length (o_colloc o) =? nc)
-            && forallb (fun col => length col =? o_nech o) (o_cols o)
-            && (length (o_active o) =? o_nech o) in
-  let b4 := forallb (fun c => let u := znth (o_col2uid o) c in
-                              (0 <=? u)%Z && (znth (o_uid2col o) (Z.to_nat u) =? Z.of_nat c)%Z) cs
-            && forallb (fun u => (0 <=? u)%Z && (0 <=? znth (o_uid2col o) (Z.to_nat u))%Z) (o_alluids o) in
-  let b8 := forallb (fun c => (znth (o_name2col o) c =? Z.of_nat c)%Z
-                              && (znth (o_name2uid o) c =? znth (o_col2uid o) c)%Z
-                              && list_eqb val_eqb (nth c (o_cols_name o) []) (nth c (o_cols o) [])) cs in
-  let b16 := forallb (fun t =>
-                 let l := nth t (o_loccols o) [] in
-                 forallb (fun k => let c := znth l k in
-                                   (0 <=? c)%Z && (c <? Z.of_nat nc)%Z
-                                   && (fst (colloc (Z.to_nat c)) =? Z.of_nat t)%Z
-                                   && (snd (colloc (Z.to_nat c)) =? Z.of_nat k)%Z) (seq 0 (length l)))
-               (seq 0 NLOC)
-             && forallb (fun c => let tk := colloc c in
-                                  (fst tk <? 0)%Z
-                                  || (znth (nth (Z.to_nat (fst tk)) (o_loccols o) []) (Z.to_nat (snd tk))
-                                      =? Z.of_nat c)%Z) cs in
-  let b32 := forallb (fun t => length (nth t (o_loccols o) [])
-                               =? length (filter (fun c => (fst (colloc c) =? Z.of_nat t)%Z) cs))
-                     (seq 0 NLOC) in
-  let b64 := o_nact o =? count_true (o_active o) in
-  let b128 := forallb (fun c => list_eqb val_eqb (nth c (o_cols_uid o) []) (nth c (o_cols o) [])
-                                && ((fst (colloc c) <? 0)%Z
-                                    || list_eqb val_eqb (nth c (o_cols_loc o) []) (nth c (o_cols o) []))) cs in
-  (bit b1 1 + bit b2 2 + bit b4 4 + bit b8 8 + bit b16 16 + bit b32 32 + bit b64 64 + bit b128 128)%Z.
+  (length (o_names o) =? nc) && (length (o_alluids o) =? nc) && (length (o_cols o) =? nc)
+  && (length (o_col2uid o) =? nc) && (length (o_colloc o) =? nc)
+  && forallb (fun col => length col =? o_nech o) (o_cols o)
+  && (length (o_active o) =? o_nech o).
+Definition chk_uid (o : obs) : bool :=
+  forallb (fun c => let u := znth (o_col2uid o) c in
+                    (0 <=? u)%Z && (znth (o_uid2col o) (Z.to_nat u) =? Z.of_nat c)%Z) (seq 0 (o_ncol o))
+  && forallb (fun u => (0 <=? u)%Z && (0 <=? znth (o_uid2col o) (Z.to_nat u))%Z) (o_alluids o).
+Definition chk_byname (o : obs) : bool :=
+  forallb (fun c => (znth (o_name2col o) c =? Z.of_nat c)%Z
+                    && (znth (o_name2uid o) c =? znth (o_col2uid o) c)%Z
+                    && list_eqb val_eqb (nth c (o_cols_name o) []) (nth c (o_cols o) [])) (seq 0 (o_ncol o)).
+Definition chk_roles (o : obs) : bool :=
+  forallb (fun t =>
+       let l := nth t (o_loccols o) [] in
+       forallb (fun k => let c := znth l k in
+                         (0 <=? c)%Z && (c <? Z.of_nat (o_ncol o))%Z
+                         && (fst (colloc_at o (Z.to_nat c)) =? Z.of_nat t)%Z
+                         && (snd (colloc_at o (Z.to_nat c)) =? Z.of_nat k)%Z) (seq 0 (length l)))
+     (seq 0 NLOC)
+  && forallb (fun c => let tk := colloc_at o c in
+                       (fst tk <? 0)%Z
+                       || (znth (nth (Z.to_nat (fst tk)) (o_loccols o) []) (Z.to_nat (snd tk))
+                           =? Z.of_nat c)%Z) (seq 0 (o_ncol o)).
+Definition chk_rolecount (o : obs) : bool :=
+  forallb (fun t => length (nth t (o_loccols o) [])
+                    =? length (filter (fun c => (fst (colloc_at o c) =? Z.of_nat t)%Z) (seq 0 (o_ncol o))))
+          (seq 0 NLOC).
+Definition chk_active (o : obs) : bool := o_nact o =? count_true (o_active o).
+Definition chk_cols (o : obs) : bool :=
+  forallb (fun c => list_eqb val_eqb (nth c (o_cols_uid o) []) (nth c (o_cols o) [])
+                    && ((fst (colloc_at o c) <? 0)%Z
+                        || list_eqb val_eqb (nth c (o_cols_loc o) []) (nth c (o_cols o) []))) (seq 0 (o_ncol o)).
+Definition check_obs (o : obs) : Z :=
+  (bit (chk_names o) 1 + bit (chk_sizes o) 2 + bit (chk_uid o) 4 + bit (chk_byname o) 8 + bit (chk_roles o) 16
+   + bit (chk_rolecount o) 32 + bit (chk_active o) 64 + bit (chk_cols o) 128)%Z.
 
 (* post-condition of the role setters, on observations: every existing column designated by the call
    carries the requested role type afterwards (none for UNKNOWN). bit 256 *)
